@@ -368,6 +368,7 @@ fn mk_img(rng: &mut Rng, w: u32, h: u32, kind: Kind, pt: Pt, is_dst: bool, yield
         yield_rows: kind.is_harness() && yield_rows,
         panic_at: 0,
         misalign: if matches!(kind, Kind::Buffer | Kind::DynSlice | Kind::DynImgAsSrc) && rng.chance(1, 20) { rng.range(1, 3) as u8 } else { 0 },
+        view_override: None,
     }
 }
 
@@ -1127,6 +1128,41 @@ pub fn generate(k: &Knobs, seed: u64) -> Scenario {
                         };
                         if inject && rng.chance(1, 3) && inject_panic(&mut rng, &mut r) {
                             classes.push("fault:panic".into());
+                        }
+                        // arguments a safe caller may hand to a cropped view's constructor
+                        if matches!(r.src.kind, Kind::CropRef | Kind::CropNew | Kind::DynCrop)
+                            && matches!(r.dst.kind, Kind::Slice | Kind::Buffer | Kind::Owned | Kind::DynSlice | Kind::DynOwned)
+                            && r.src.w > 0
+                            && r.src.h > 0
+                            && rng.chance(1, 12)
+                        {
+                            let pw = r.src.w + r.src.pad[0] + r.src.pad[2];
+                            let ph = r.src.h + r.src.pad[1] + r.src.pad[3];
+                            let wrap = |rng: &mut Rng, limit: u32| -> (u32, u32) {
+                                // origin inside the parent, size so large that origin + size
+                                // wraps around u32 to a value <= limit
+                                let o = rng.range(1, limit.max(2) as u64 - 1) as u32;
+                                let target = rng.range(0, limit as u64) as u32;
+                                (o, target.wrapping_sub(o))
+                            };
+                            let ov = match rng.below(6) {
+                                0 => {
+                                    let (l, w) = wrap(&mut rng, pw);
+                                    [l, 0, w, r.src.h.min(ph)]
+                                }
+                                1 => {
+                                    let (t, h) = wrap(&mut rng, ph);
+                                    [0, t, r.src.w.min(pw), h]
+                                }
+                                2 => [pw, 0, 1, 1],
+                                3 => [0, 0, pw + 1, ph],
+                                4 => [0, 0, u32::MAX, u32::MAX],
+                                _ => [pw - 1, ph - 1, 1, 1],
+                            };
+                            r.src.view_override = Some(ov);
+                            r.crop = Crop::None;
+                            r.alg = if rng.chance(1, 2) { Alg::Nearest } else { Alg::Conv(Filt::Bilinear) };
+                            classes.push("view-constructor-arguments".into());
                         }
                         OpKind::Resize(r)
                     }
